@@ -462,8 +462,24 @@ fn c20(r: &Runner) {
                 exec(l, bits, Op::bits_from_le_bytes, &[s.clone()]);
             }
         });
-        let texts = ["", "0", "1", "7", "8", "f", "z", "Z", "_", "10", "ff", "1_0", "g", "+", "/", "1é", "255", "256", "18446744073709551615", "18446744073709551616", "zz", "ZZ", "0x1", "-1"];
-        r.universe("texts x radix 0..=66 for from_str_radix facades", bits, texts.len(), |i, l| {
+        let mut texts: Vec<String> = ["", "255", "256", "18446744073709551615", "18446744073709551616", "0x1", "340282366920938463463374607431768211455", "+18446744073709551615", "+255", "-255", "+0x1"].iter().map(|s| s.to_string()).collect();
+        // every string of length <= 2 over a 26-character set (digits of every class, both signs, separators, a
+        // multi-byte character), and length 3 with a sign or separator in one position
+        let cs: Vec<char> = "0179afgzAFZ_+-/ .x=\ré€😀\u{661}\u{ff11}".chars().collect();
+        for &a in &cs {
+            texts.push(a.to_string());
+            for &b in &cs {
+                texts.push([a, b].iter().collect());
+                for &c in &['+', '-', '_', '1'] {
+                    texts.push([c, a, b].iter().collect());
+                    texts.push([a, c, b].iter().collect());
+                    texts.push([a, b, c].iter().collect());
+                }
+            }
+        }
+        texts.sort();
+        texts.dedup();
+        r.universe(&format!("{} texts x radix 0..=66 for from_str_radix facades", texts.len()), bits, texts.len(), |i, l| {
             for radix in (0..=66u64).chain([255, 256, (1 << 32) + 10]) {
                 l.states(1);
                 if radix == 0 {
@@ -471,8 +487,8 @@ fn c20(r: &Runner) {
                         exec(l, bits, Op::bits_from_str, &[V::S(format!("{pre}{}", texts[i]))]);
                     }
                 }
-                exec(l, bits, Op::bits_from_str_radix, &[V::s(texts[i]), V::N(radix as u128)]);
-                exec(l, bits, Op::nt_from_str_radix, &[V::s(texts[i]), V::N(radix as u128)]);
+                exec(l, bits, Op::bits_from_str_radix, &[V::s(&texts[i]), V::N(radix as u128)]);
+                exec(l, bits, Op::nt_from_str_radix, &[V::s(&texts[i]), V::N(radix as u128)]);
             }
         });
         let mut us: Vec<u128> = vec![0, u128::MAX];
